@@ -175,6 +175,12 @@ CLAIMED["C28"] = dict(
     note="PARTIAL CLAIM: the structural quantifier ('every syntactically valid input') is not encodable; only the stated template families are examined, in the dimension of their integer literal values. C3 and textual-IR front ends are outside. Known findings (internal errors of the pinned tree for particular literal values) are listed grouped by root cause.",
     technique=TECH)
 
+CLAIMED["C17"] = dict(
+    level="model_checking", design="§11 (was planned as not applicable; built like C18/C19)",
+    text="For every enumerated object shape (5 machines x86_64/arm/riscv/xtensa/microblaze, relocatable and executable, 0-3 sections, 0-2 images, 0-5 symbols local/global/func/object/undefined/absolute, 0-4 relocations, entry symbol or none) the real ppci.format.elf writer runs on SYMBOLIC values: all section bytes, section addresses, symbol values and sizes, relocation offsets and addends, image addresses (symbolic page number, stated in-page offsets). An independent reader written from the gABI / ELF-64 / AMD64 psABI specifications (ref/elfspec.py) reads the resulting symbolic file; on every path the solver proves that the file is well formed (header, tables, string offsets, sh_link/sh_info, locals first, segment congruence and order), that the reader sees exactly the object's sections, symbols, x86_64 RELA entries and entry point, and that for every virtual address (symbolic probe) each PT_LOAD segment holds exactly the byte of the linked memory image; ppci's own ELF reader on the same bytes agrees field by field.",
+    note="'Independent tools' are represented by the specification-derived reader; GNU readelf validates THAT reader on ~40 concrete ppci/gcc/objcopy files in a self-test job and decides nothing about ppci. struct.Struct packing is replaced by the symx struct shim inside the header classes; every path is re-run concretely with the real struct/io. Names are concrete samples. Outside: acceptance by further third-party tools, DWARF/debug sections, ET_DYN, e_flags/sh_flags/p_flags details, relocatable files with relocations on non-x86 machines (ppci raises NotImplementedError; the check confirms that), relocation semantics (C10/C11), shapes beyond the stated sizes.",
+    technique=TECH)
+
 NOT_APPLICABLE = {
     "C04": "property is about native execution of whole gcc/ppci-compiled programs; no x86-64 semantics model is in reach and running binaries is enumeration of concrete runs, not solver-based checking",
     "C06": "dataflow property over uninterpreted instruction semantics: a checker would be tag propagation in which a solver decides nothing",
